@@ -30,6 +30,12 @@ LEVEL = {
          "tick = 1/8 s; 6 entity configurations + random ones from a pool of 10 timelines; component values judged via the real Timeline::update", TECH % ("", " and by TLC validating traces recorded from a real Bevy App (leg B)")),
  "C19": ("model_checking", "6 C19", "Select/chain steps carry the C19 clauses as action properties (untyped-event defect is a negative control); real App logs with selector, chain (incl. cycles) and one or two animated component types are validated by TLC with the system order left open.",
          "as C18; chain judged by the governed animator's state (see DESIGN)", TECH % ("", " and by TLC validating traces recorded from a real Bevy App (leg B)")),
+ "C09": ("model_checking", "6 C09", "The spec's timeline object is immutable under update and its result a function of (components, override, time); TLC generates histories of update (non-monotone times, different prior target contents) / start_with / clone with predictions, replayed on real objects together with idempotence and prior-content independence checks and metadata after every operation.",
+         "object shapes and value pool of MC_Objects.tla; times on the tick grid", TECH % ("", "")),
+ "C12": ("model_checking", "6 C12", "OrderIrrelevant / LaterWins / SingleSame invariants in the model; aggregate metadata (min delay, max total with infinity absorbing, max repeat in the semantic order incl. Times(u32::MAX) < Infinite, cycle iff all agree) predicted for EVERY list of 0..3 components over 8 shapes and compared with real MergedTimeline objects, values at all sampled times before and after start_with.",
+         "8 component shapes; equal-rank repeats (None / Times(0)) accept any maximal element", TECH % ("", "")),
+ "C20": ("model_checking", "6 C20", "Unbounded repeat count in Apalache (u32 wrap is a negative control); exact-tick traces incl. Times(u32::MAX) and the f32 neighbours of every boundary recorded in debug AND release builds must be identical and accepted by TLC; object histories with huge repeat counts replayed in both profiles; supplementary arbitrary-f32 sweep (no panic, finite, in range, equal digests).",
+         "domain: exact total duration representable in f32; the arbitrary-f32 sweep is an oracle-only supplement", TECH % (" and Apalache", " and by TLC validating traces recorded from the real code in both build profiles (leg B)")),
 }
 NA = {}
 for i in range(1, 21):
